@@ -10,6 +10,7 @@ ENCODING_ASSUMPTIONS = [
     "E7 object identity is preserved by parameter passing, storing in containers and raise/except",
     "E9 float arithmetic is never interpreted",
     "E10 `==` on boxed values is value identity for primitives and object identity for references (lists compare by content one level deep)",
+    "E11 heap well-formedness: no dangling references in the declared reference-holding attributes; a **kwargs dict is unshared at function entry",
     "Python ints are mathematical integers (exact)",
     "helper functions without a contract are expanded at their call sites (inlined real bodies), all others are used through their contracts",
 ]
